@@ -1,3 +1,5 @@
+//! Lean monitor binary (no third-party styling crates): used by the C04 lanes — debug assertions + overflow checks,
+//! Miri, AddressSanitizer, valgrind.
 fn main() {
     let checks = vcore::lean_checks();
     std::process::exit(vcore::cli_main(checks));
